@@ -6,6 +6,9 @@ from . import astutil as A
 from .loader import AnalysisError
 
 
+_NOFUNC = object()
+
+
 class Raised(Exception):
     def __init__(self, name):
         self.name = name
@@ -277,6 +280,13 @@ def _ev(e, env):
             return env[e.id]
         if e.id in ("None", "True", "False"):
             return {"None": None, "True": True, "False": False}[e.id]
+        if e.id in env.get("__globals__", {}):
+            return env["__globals__"][e.id]
+        gl = env.get("__global_lookup__")
+        if gl is not None:
+            found, val = gl(e.id)
+            if found:
+                return val
         raise AnalysisError("miniinterp: unknown name %s" % e.id)
     if isinstance(e, ast.Attribute):
         if isinstance(e.value, ast.Name) and env.get(e.value.id) == "__SELF__":
@@ -372,7 +382,8 @@ def _ev(e, env):
             return hooks[d](*_args(e, env))
         if isinstance(e.func, ast.Attribute) and isinstance(e.func.value, ast.Name) and env.get(e.func.value.id) == "__SELF__" \
                 and e.func.attr in env.get("__methods__", {}):
-            extra = {k: env[k] for k in ("__calls__", "__values__", "__isinstance__", "__methods__") if k in env}
+            extra = {k: env[k] for k in ("__calls__", "__values__", "__isinstance__", "__methods__", "__globals__",
+                                         "__global_lookup__", "__max_iter__") if k in env}
             return call_method(env["__methods__"][e.func.attr], env["__self__"], _args(e, env), extra)
         if isinstance(e.func, ast.Attribute) and e.func.attr in ("upper", "lower", "strip", "join", "split", "startswith", "endswith"):
             base = _ev(e.func.value, env)
@@ -407,5 +418,15 @@ def _ev(e, env):
         if d in ("len", "max", "min", "list", "tuple", "str", "set", "dict", "frozenset", "bool", "int"):
             return {"len": len, "max": max, "min": min, "list": list, "tuple": tuple, "str": str, "set": set, "dict": dict,
                     "frozenset": frozenset, "bool": bool, "int": int}[d](*[_ev(a, env) for a in e.args])
+        # a value of the model that is callable (registry entries, hooks handed in as globals)
+        if not isinstance(e.func, ast.Attribute) or not (isinstance(e.func.value, ast.Name) and env.get(e.func.value.id) == "__SELF__"):
+            try:
+                fv = _ev(e.func, env)
+            except AnalysisError:
+                fv = _NOFUNC
+            if fv is not _NOFUNC:
+                if callable(fv):
+                    return fv(*_args(e, env))
+                raise Raised("TypeError")        # calling None / a non-callable
         raise AnalysisError("miniinterp: unsupported call %s" % A.src(e))
     raise AnalysisError("miniinterp: unsupported expression %s" % A.src(e))
